@@ -10,6 +10,7 @@ import (
 	"maps"
 	"math"
 	"slices"
+	"strconv"
 	"strings"
 
 	"github.com/mazrean/kessoku/internal/pkg/collection"
@@ -223,10 +224,15 @@ func createASTTypeExpr(pkg string, t types.Type, varPool *VarPool, imports map[s
 			if err != nil {
 				return nil, fmt.Errorf("field %d: %w", i, err)
 			}
-			fields = append(fields, &ast.Field{
-				Names: []*ast.Ident{ast.NewIdent(typ.Field(i).Name())},
-				Type:  expr,
-			})
+			field := &ast.Field{Type: expr}
+			// An embedded field has no name of its own; a tag is part of the struct type's identity
+			if !typ.Field(i).Embedded() {
+				field.Names = []*ast.Ident{ast.NewIdent(typ.Field(i).Name())}
+			}
+			if tag := typ.Tag(i); tag != "" {
+				field.Tag = &ast.BasicLit{Kind: token.STRING, Value: strconv.Quote(tag)}
+			}
+			fields = append(fields, field)
 		}
 		return &ast.StructType{
 			Fields: &ast.FieldList{
